@@ -134,6 +134,9 @@ SNIPPETS = [
     "pd.to_datetime(np.array([0.0, 86400.5]), unit='s')", "np.array([0.0, 86400.5]).astype('datetime64[s]')",
     "(t[1] - t[0]).astype('timedelta64[s]').astype(float)", "np.abs(np.diff(a) / (t[1] - t[0]).astype('timedelta64[s]').astype(float))",
     "t[-1] - t[0] == (t[1] - t[0]) * 4", "np.diff(t).astype('timedelta64[s]')[2].astype(float)", "(t[2] - t[0]) * 3 > (t[4] - t[0])",
+    "(lambda x: (np.abs(x, out=x), x)[1])(np.array([-1.0, 2.0, -3.0]))",
+    "(lambda x, e: (np.divide(x[1:], e, out=x[1:], where=e != 0), x)[1])(np.array([8.0, 6.0, 4.0, 9.0]), np.array([2.0, 0.0, 3.0]))",
+    "(lambda x: (np.add(x, 1, x), x)[1])(np.array([1.0, 2.0]))", "np.multiply(a, b, dtype=None)",
     "np.ravel(np.array([[1.0, 2.0], [3.0, 4.0]]))", "np.union1d(np.flatnonzero(a > 1), np.flatnonzero(b > 1))",
     "np.union1d(np.array([3, 1]), np.array([2, 1]))", "(lambda x: (np.put(x, np.array([2, 0]), np.array([7.0, 8.0])), x)[1])(np.zeros(4))",
     "(lambda x: (np.put(x, [1, 3, 0], [5]), x)[1])(np.full((4,), 2, dtype='uint8'))",
